@@ -363,6 +363,14 @@ impl<const N: usize, const T: usize> StaticLut<N, T> {
     }
 }
 
+#[cfg(volute_verif)]
+impl<const N: usize, const T: usize> StaticLut<N, T> {
+    /// Verification hook: apply one successor step to the table, and return true if it didn't roll back
+    pub fn verif_next(&mut self) -> bool {
+        next_inplace(N, self.table.as_mut())
+    }
+}
+
 #[doc(hidden)]
 pub struct StaticLutIterator<const N: usize, const T: usize> {
     lut: StaticLut<N, T>,
